@@ -31,7 +31,8 @@
 (***************************************************************************)
 EXTENDS Integers, Sequences, SequencesExt, FiniteSets, TLC
 
-CONSTANTS DEV_OtherwiseFlagIsGlobal, DEV_MemoKeyedByValueOnly, DEV_MemoCachesFailure
+CONSTANTS DEV_OtherwiseFlagIsGlobal, DEV_MemoKeyedByValueOnly, DEV_MemoCachesFailure,
+          YearOpt        \* the syslog-current-year option (a parsed year 0 is replaced by the current year)
 
 Null == [k |-> "null"]
 MaxInt == 1000000000          \* beyond this a case is flagged `ovf` and dropped (TLC ints are 32 bit)
@@ -193,14 +194,17 @@ Match(p, line) ==
 (* harness checks every entry against time.ParseInLocation before use.     *)
 (* Entry = instant id (a string the harness maps to a concrete instant) or *)
 (* "" when the value does not parse under the layout.                      *)
-Layouts == <<"2006-01-02T15:04:05Z07:00", "01/02/2006", "02/01/2006", "Jan _2 15:04:05">>
+Layouts == <<"2006-01-02T15:04:05Z07:00", "01/02/2006", "02/01/2006", "01/02">>
 ParseTab(layout, val) ==
   CASE layout = 2 /\ val = <<"0","3","/","0","4","/","1","9","7","0">> -> "mdY-0304"
     [] layout = 3 /\ val = <<"0","3","/","0","4","/","1","9","7","0">> -> "dmY-0304"
     [] layout = 2 /\ val = <<"1","2","/","2","5","/","1","9","7","0">> -> "mdY-1225"
     [] layout = 3 /\ val = <<"2","5","/","1","2","/","1","9","7","0">> -> "dmY-2512"
     [] layout = 1 /\ val = <<"1","9","7","0","-","0","1","-","0","2","T","0","3",":","0","4",":","0","5","Z">> -> "rfc-a"
+    [] layout = 4 /\ val = <<"0","3","/","0","4">> -> "y0-0304"          \* no year in the layout: year 0
     [] OTHER -> ""
+\* instants of year 0 are only representable (as datum nanoseconds) once the current year is substituted
+Yearless == {"y0-0304"}
 
 -----------------------------------------------------------------------------
 (* State threaded through the evaluation of one line                       *)
@@ -388,6 +392,7 @@ Eval(P, e, st) ==
                           IF hit /\ DEV_MemoCachesFailure THEN R(Null, [s1 EXCEPT !.time = Null])     \* cached zero time, no error
                           ELSE R(Null, Fail([s1 EXCEPT !.time = Null,
                                                        !.memo = IF DEV_MemoCachesFailure THEN (key :> "") @@ @ ELSE @]))
+                     ELSE IF res \in Yearless /\ ~YearOpt THEN R(Null, [s1 EXCEPT !.ovf = TRUE])
                      ELSE R(Null, [s1 EXCEPT !.time = TimeV(res), !.memo = (key :> res) @@ @])
                 [] OTHER -> R(Null, [s1 EXCEPT !.ovf = TRUE])
     [] OTHER -> R(Null, [st EXCEPT !.ovf = TRUE])
